@@ -250,6 +250,7 @@ func openLibs(L *lua.LState) {
 		{lua.TabLibName, lua.OpenTable},
 		{lua.StringLibName, lua.OpenString},
 		{lua.CoroutineLibName, lua.OpenCoroutine},
+		{lua.DebugLibName, lua.OpenDebug},
 	} {
 		L.Push(L.NewFunction(pair.f))
 		L.Push(lua.LString(pair.n))
@@ -266,7 +267,7 @@ func NewHost(o Options) *Host {
 	lo.SkipOpenLibs = true
 	L := lua.NewState(lo)
 	if o.Bare {
-		for _, f := range []lua.LGFunction{lua.OpenPackage, lua.OpenBase, lua.OpenTable, lua.OpenString, lua.OpenCoroutine, lua.OpenMath} {
+		for _, f := range []lua.LGFunction{lua.OpenPackage, lua.OpenBase, lua.OpenTable, lua.OpenString, lua.OpenCoroutine, lua.OpenMath, lua.OpenDebug} {
 			f(L)
 			L.SetTop(0)
 		}
